@@ -195,11 +195,68 @@ Section Lists.
     end.
 End Lists.
 
+Section IndexLoop.
+  Variable expr : list tok -> pr node.
+  (* Any(Gate: Assert("["), OnSuccess: indexInner) folded by mkIndex *)
+  Fixpoint index_loop (n : nat) (acc : node) (ts : list tok) : pr node :=
+    match n with
+    | O => Out
+    | S n' =>
+        if peek_val "[" ts then
+          match ts with
+          | _ :: r1 =>
+              match expr r1 with
+              | Got e1 r2 =>
+                  match accept (is_val ":") r2 with
+                  | Got _ r3 =>
+                      match expr r3 with
+                      | Got e2 r4 =>
+                          match accept (is_val "]") r4 with
+                          | Got _ r5 => index_loop n' (NIndexFromTo acc e1 e2) r5
+                          | Bad => Bad | Out => Out
+                          end
+                      | Bad => Bad | Out => Out
+                      end
+                  | _ =>
+                      match accept (is_val "]") r2 with
+                      | Got _ r5 => index_loop n' (NIndexAt acc e1) r5
+                      | Bad => Bad | Out => Out
+                      end
+                  end
+              | Bad => Bad | Out => Out
+              end
+          | [] => Bad
+          end
+        else Got acc ts
+    end.
+End IndexLoop.
+
 Definition mk_block (l : list node) : node :=
   match l with
   | [x] => x
   | _ => NBlock l
   end.
+
+Section StmtsLoop.
+  Variable stmt : list tok -> pr node.
+  (* Any(Gate: Assert(And(eols1, Not("}"))), OnSuccess: And(eols1, statement)), then And(eols1, "}") *)
+  Fixpoint stmts_loop (n : nat) (acc : list node) (ts : list tok) : pr node :=
+    match n with
+    | O => Out
+    | S n' =>
+        match eols1 ts with
+        | Got _ ra =>
+            if peek_val "}" ra then
+              match ra with _ :: rb => Got (mk_block acc) rb | [] => Bad end
+            else
+              match stmt ra with
+              | Got s' rb => stmts_loop n' (acc ++ [s']) rb
+              | Bad => Bad | Out => Out
+              end
+        | _ => Bad      (* And(eols1, "}") needs a line end here *)
+        end
+    end.
+End StmtsLoop.
 
 (* the mutually recursive part: every call to another nonterminal spends one unit of fuel *)
 Fixpoint p_expr (fuel : nat) (ts : list tok) {struct fuel} : pr node :=
@@ -230,37 +287,7 @@ with p_index (fuel : nat) (ts : list tok) {struct fuel} : pr node :=
   | S k =>
       match p_atom k ts with
       | Got a r =>
-          (fix loop (n : nat) (acc : node) (ts : list tok) : pr node :=
-             match n with
-             | O => Out
-             | S n' =>
-                 if peek_val "[" ts then
-                   match ts with
-                   | _ :: r1 =>
-                       match p_expr k r1 with
-                       | Got e1 r2 =>
-                           match accept (is_val ":") r2 with
-                           | Got _ r3 =>
-                               match p_expr k r3 with
-                               | Got e2 r4 =>
-                                   match accept (is_val "]") r4 with
-                                   | Got _ r5 => loop n' (NIndexFromTo acc e1 e2) r5
-                                   | Bad => Bad | Out => Out
-                                   end
-                               | Bad => Bad | Out => Out
-                               end
-                           | _ =>
-                               match accept (is_val "]") r2 with
-                               | Got _ r5 => loop n' (NIndexAt acc e1) r5
-                               | Bad => Bad | Out => Out
-                               end
-                           end
-                       | Bad => Bad | Out => Out
-                       end
-                   | [] => Bad
-                   end
-                 else Got acc ts
-             end) (S (List.length r)) a r
+          index_loop (p_expr k) (S (List.length r)) a r
       | Bad => Bad | Out => Out
       end
   end
@@ -437,23 +464,7 @@ with p_block (fuel : nat) (ts : list tok) {struct fuel} : pr node :=
             | Got _ r1 =>
                 match p_stmt k r1 with
                 | Got s r2 =>
-                    (* Any(Gate: Assert(And(eols1, Not("}"))), OnSuccess: And(eols1, statement)) *)
-                    (fix loop (n : nat) (acc : list node) (ts : list tok) : pr node :=
-                       match n with
-                       | O => Out
-                       | S n' =>
-                           match eols1 ts with
-                           | Got _ ra =>
-                               if peek_val "}" ra then
-                                 match ra with _ :: rb => Got (mk_block acc) rb | [] => Bad end
-                               else
-                                 match p_stmt k ra with
-                                 | Got s' rb => loop n' (acc ++ [s']) rb
-                                 | Bad => Bad | Out => Out
-                                 end
-                           | _ => Bad      (* And(eols1, "}") needs a line end here *)
-                           end
-                       end) (S (List.length r2)) [s] r2
+                    stmts_loop (p_stmt k) (S (List.length r2)) [s] r2
                 | Bad => Bad | Out => Out
                 end
             | Bad => Bad | Out => Out
